@@ -203,6 +203,9 @@ func c06Case(c *Ctx, v *libvore.Vore, cmd, content, want string, isReplace bool,
 	}
 	_ = res
 	after := snapshotDir(dir)
+	if mode != engine.NOTHING && isReplace && len(content) < 6 && len(content) > 2 {
+		c.Sample(map[string]any{"command": cmd, "mode": mode.String(), "pre_state": fmtDir(before), "post_state": fmtDir(after)})
+	}
 	c.Outcome(fmtDir(before) + "=>" + fmtDir(after))
 	if fmtDirFull(after) != fmtDirFull(expected) {
 		what := "find"
